@@ -48,7 +48,9 @@ def gen_cases(tier, seed):
                     cases.append(dict(base, fault="stop", graceful=g, sample=0.02 if tier == "quick" else 0.1, part=part, parts=parts))
             if kind != "mem":
                 for part in range(parts):
-                    cases.append(dict(base, fault="death", graceful=3.0, sample=0.01 if tier == "quick" else 0.05, part=part, parts=parts))
+                    # every second scenario: execution timeouts of a day and 20 s (recovery "not before" over days)
+                    cases.append(dict(base, fault="death", graceful=3.0, sample=0.01 if tier == "quick" else 0.05, part=part, parts=parts,
+                                      exec_timeout=86420.0 if i % 2 == 1 else EXEC_TIMEOUT))
             # stop by message limit: the stop instant is set by completions, so vary M, durations and latency instead of the step
             for M in ((1, 2) if tier == "quick" else (1, 2, 3)):
                 cases.append(dict(base, fault="limit", graceful=rnd.choice([0.0, 0.5, 3.0]), M=M, sample=0, part=0, parts=1))
@@ -62,6 +64,11 @@ def gen_cases(tier, seed):
             for part in range(parts):
                 cases.append(dict(base, fault="stop", graceful=g, sample=0.02 if tier == "quick" else 0.1, part=part, parts=parts))
         cases.append(dict(base, fault="limit", graceful=0.5, M=1, sample=0, part=0, parts=1))
+        if kind == "redis":
+            # directed: a process dies while holding messages whose execution timeout is a day (and a week) plus 20 s
+            for et in (86420.0, 604820.0):
+                for part in range(2):
+                    cases.append(dict(base, fault="death", graceful=3.0, sample=0.01, part=part, parts=2, exec_timeout=et))
         # directed: every kind of disposition (ack, nack, requeue, result store) under an immediate forced cancellation
         jobs = [{"kind": "fail_nack", "d": 0.3}, {"kind": "ok", "d": 0.3}, {"kind": "fail_retry", "d": 0.3}, {"kind": "result", "d": 0.3}, {"kind": "fail_nack", "d": 0.0}]
         base = {"kind": kind, "jobs": jobs, "tl": 1000, "seed": rnd.randrange(10**6), "latency": None if kind == "mem" else 0.002}
@@ -115,7 +122,7 @@ async def scenario(loop, case, inject_step, info):
                 script = {"do": "raise", "d": j["d"]}  # no retries left: the disposition is nack
             else:
                 script = {"do": "ok", "d": j["d"], "ret": {"v": i}}
-            await w.job("act", id_, script, retries=0 if j["kind"] == "fail_nack" else 1, timeout=timedelta(seconds=EXEC_TIMEOUT), store_result=(j["kind"] == "result")).enqueue()
+            await w.job("act", id_, script, retries=0 if j["kind"] == "fail_nack" else 1, timeout=timedelta(seconds=case.get("exec_timeout", EXEC_TIMEOUT)), store_result=(j["kind"] == "result")).enqueue()
         sig = __import__("signal").SIGUSR1
         wkw = {"messages_limit": case["M"]} if case.get("M") else {}
         worker = w.worker([r], tasks_limit=case["tl"], graceful_shutdown_time=case["graceful"], handle_signals=[sig], **wkw)
@@ -243,7 +250,14 @@ async def scenario(loop, case, inject_step, info):
                 rec["scores"] = scores
                 await w.rig.quiesce_wire()
                 latest = max(scores.values(), default=EPOCH.timestamp() + injected["t"])
-                loop.jump_to(latest - 2_208_988_800 + EXEC_TIMEOUT + 2.5)
+                ET_ = case.get("exec_timeout", EXEC_TIMEOUT)
+                t_mid = latest - 2_208_988_800 + ET_ / 2
+                if t_mid > loop.time() + 1.0:
+                    # half way through the execution timeout: still not deliverable
+                    loop.jump_to(t_mid)
+                    rec["early"] = early + await sweep("r1b", 3.0)
+                    await w.rig.quiesce_wire()
+                loop.jump_to(latest - 2_208_988_800 + case.get("exec_timeout", EXEC_TIMEOUT) + 2.5)
                 late1 = await sweep("r2", 4.0)
                 rec["late"] = late1
                 rec["snapshot_after"] = w.rig.snapshot()
@@ -422,9 +436,12 @@ def run_case(case):
             held = set(rec["held_after_death"])
             # "not before": the in-flight mark carries the time the message was taken; recovery is early only when it
             # happens before that time + execution timeout (whole-second marks: 1 s tolerance)
-            early_ids = [i for i, t in rec["early"] if i in held and t < rec["scores"].get(i, 0) - 2_208_988_800 + EXEC_TIMEOUT - 1.0]
+            ET = case.get("exec_timeout", EXEC_TIMEOUT)
+            early_ids = [i for i, t in rec["early"] if i in held and t < rec["scores"].get(i, 0) - 2_208_988_800 + ET - 1.0]
+            if ET > 86400:
+                stats["recoveries_with_timeout_over_a_day"] += 1
             if early_ids:
-                out.append(V("early_recovery", "redis", "death", f"death at step {k}: {early_ids} were in flight and became deliverable within 3 s, before their {EXEC_TIMEOUT}s execution timeout (scores {rec['scores']})"))
+                out.append(V("early_recovery", "redis", "death", f"death at step {k}: {early_ids} were in flight and became deliverable within 3 s, before their {ET}s execution timeout (scores {rec['scores']})"))
             late_counts = collections.Counter(i for i, t in rec["late"])
             for i in held:
                 if i in early_ids or any(x == i for x, _t in rec["early"]):
